@@ -35,7 +35,8 @@ pub fn check(sc: &Scenario, ex: &mut Exec) -> (Verdict, Option<String>) {
         Err(v) => return (v, None),
     };
     let scan = ir::scan(&compiled.dp);
-    if scan.noise_maps.is_empty() {
+    if scan.noise_maps.is_empty() && !scan.tables.iter().any(|t| sc.is_protected(t)) {
+        // answered from public / synthetic tables only
         return (Verdict::Skip("no_noise_in_rewriting".into()), None);
     }
     let own = owners::owners(sc);
